@@ -71,7 +71,7 @@ func clientPart(run *vkit.Run) {
 		}
 		mn, hs, err := newNet(2)
 		if err != nil {
-			run.Count("harness_errors", 1)
+			herr(run, "client:1")
 			return
 		}
 		defer mn.Close()
@@ -90,11 +90,13 @@ func clientPart(run *vkit.Run) {
 		}
 		if ctx.Err() != nil {
 			run.Inconclusive("watchdog")
+			run.Count("watchdog_client_"+sc.Kind, 1)
+			fmt.Printf("WATCHDOG client case=%d script=%s req=%+v\n", caseNo, sc.String(), req)
 			return
 		}
 		log := resp.Log()
 		if len(log) != 1 {
-			run.Count("harness_errors", 1)
+			herr(run, "client:2")
 			return
 		}
 		ex := log[0]
@@ -159,7 +161,9 @@ func clientPart(run *vkit.Run) {
 				break
 			}
 		}
-		if len(got) < len(view.Certs) {
+		if len(got) < len(view.Certs) && ex.Reset {
+			run.Count("client_short_after_reset", 1) // a reset may discard bytes in flight
+		} else if len(got) < len(view.Certs) {
 			run.Count("client_underdelivery", 1)
 			run.Sample(map[string]any{"client_underdelivery": w})
 		} else {
